@@ -116,6 +116,98 @@ case('c20-js-nonbool-true', ['C20'], ['C20.validity'],
      (JSV, "                    console::warn_1(&\"State validity checker returned non-boolean value\".into());\n                    false",
            "                    console::warn_1(&\"State validity checker returned non-boolean value\".into());\n                    true"))
 
+# ---------------------------------------------------------------- C05
+case('c05-extrapolate', ['C05'], ['C05.steer'],
+     (RRT, "                let t = self.max_distance / min_dist;", "                let t = min_dist / self.max_distance;"))
+case('c05-steer-from-root', ['C05'], ['C05.steer'],
+     (RRT, "                pd.space.interpolate(q_near, &q_rand, t, &mut q_new);", "                pd.space.interpolate(&self.tree[0].state, &q_rand, t, &mut q_new);"))
+case('c05-wrong-guard-field', ['C05'], ['C05.steer'],
+     (RRTS, "            if min_dist > self.max_distance {", "            if min_dist > self.search_radius {"))
+case('c05-prm-no-radius', ['C05'], ['C05.radius'],
+     (PRM, "                    if dist < self.connection_radius && self.check_motion(&q_rand, &other_state) {", "                    if dist.is_finite() && self.check_motion(&q_rand, &other_state) {"))
+case('c05-neighbours-unbounded', ['C05'], ['C05.radius'],
+     (RRTS, "                if pd.space.distance(&node.state, &self.tree[i].state) < self.search_radius {", "                if pd.space.distance(&node.state, &self.tree[i].state) < f64::MAX {"))
+
+# ---------------------------------------------------------------- C15
+case('c15-rewire-le', ['C15'], ['C15.acyclic'],
+     (RRTS, "                if cost_via_new_node < neighbour_node.cost\n", "                if cost_via_new_node <= neighbour_node.cost\n"))
+case('c15-pop', ['C15'], ['C15.noremove'],
+     (RRT, "                if goal.is_satisfied(&q_new) {", "                if self.tree.len() > 1_000_000 {\n                    self.tree.pop();\n                }\n                if goal.is_satisfied(&q_new) {"))
+case('c15-parent-after-push', ['C15', 'C03'], ['C15.range'],
+     (RRT, "                    parent_index: Some(nearest_node_index),", "                    parent_index: Some(self.tree.len()),"))
+case('c15-walk-skip', ['C15'], ['C15.walk'],
+     (RRT, "            current_index = self.tree[index].parent_index;", "            current_index = if index > 0 { Some(index - 1) } else { None };"))
+case('c15-state-overwrite', ['C15'], ['C15.frozen'],
+     (RRTS, "                    mutable_neighbour_node.parent_index = Some(new_node_index);", "                    mutable_neighbour_node.state = q_new.clone();\n                    mutable_neighbour_node.parent_index = Some(new_node_index);"))
+
+# ---------------------------------------------------------------- C16
+case('c16-farthest', ['C16'], ['C16.nearest'],
+     (RRT, "                if dist < min_dist {", "                if dist > min_dist {"))
+case('c16-scan-from-2', ['C16'], ['C16.nearest'],
+     (RRTS, "            for i in 1..self.tree.len() {\n                let dist = pd.space.distance(&self.tree[i].state, &q_rand);", "            for i in 2..self.tree.len() {\n                let dist = pd.space.distance(&self.tree[i].state, &q_rand);"))
+case('c16-min-not-updated', ['C16'], ['C16.nearest'],
+     (RRT, "                    min_dist = dist;\n                    nearest_node_index = i;", "                    nearest_node_index = i;"))
+case('c16-bias-swapped', ['C16'], ['C16.bias'],
+     (RRT, "                goal.sample_goal(&mut rng).unwrap()\n            } else {\n                // TODO: assume uniform sampling can't fail if bounds are set correctly.\n                pd.space.sample_uniform(&mut rng).unwrap()",
+           "                pd.space.sample_uniform(&mut rng).unwrap()\n            } else {\n                goal.sample_goal(&mut rng).unwrap()"))
+case('c16-bias-complement', ['C16'], ['C16.bias'],
+     (RRTS, "            let q_rand = if rng.random_bool(self.goal_bias) {", "            let q_rand = if rng.random_bool(1.0 - self.goal_bias) {"))
+case('c16-grow-larger', ['C16'], ['C16.balance'],
+     (RRTC, "                if self.start_tree.len() <= self.goal_tree.len() {", "                if self.start_tree.len() >= self.goal_tree.len() {"))
+case('c16-connect-to-qrand', ['C16'], ['C16.balance'],
+     (RRTC, "                    Self::extend(tree_b, q_new, pd, vc, self.max_distance)", "                    Self::extend(tree_b, &q_rand, pd, vc, self.max_distance)"))
+case('c16-double-push', ['C16', 'C01'], ['C16.one'],
+     (RRT, "                self.tree.push(new_node);\n", "                self.tree.push(new_node.clone());\n                self.tree.push(new_node);\n"))
+
+# ---------------------------------------------------------------- C17
+case('c17-choose-most-expensive', ['C17'], ['C17.choose'],
+     (RRTS, "                if cost_via_neighbour < min_cost && self.check_motion(&neighbour_node.state, &q_new)", "                if cost_via_neighbour > min_cost && self.check_motion(&neighbour_node.state, &q_new)"))
+case('c17-cost-vs-qnear', ['C17'], ['C17.cost'],
+     (RRTS, "                    min_cost = cost_via_neighbour;", "                    min_cost = self.cost(&temp_node, q_near_node);"))
+case('c17-rewire-no-cost', ['C17'], ['C17.rewire'],
+     (RRTS, "                    mutable_neighbour_node.cost = cost_via_new_node;\n", ""))
+case('c17-extra-draw', ['C17'], ['C17.sibling'],
+     (RRTS, "            // 3. Find the nearest node in the tree (q_near)\n            let mut nearest_node_index = 0;", "            let _coin = rng.random_bool(0.5);\n            let mut nearest_node_index = 0;"))
+case('c17-cost-fn-wrong', ['C17'], ['C17.cost'],
+     (RRTS, "            neighbour_node.cost\n                + pd.space", "            current_node.cost\n                + pd.space"))
+case('benign-choose-le', ['C17', 'C15'], [],
+     (RRTS, "                if cost_via_neighbour < min_cost && self.check_motion(&neighbour_node.state, &q_new)", "                if cost_via_neighbour <= min_cost && self.check_motion(&neighbour_node.state, &q_new)"))
+
+# ---------------------------------------------------------------- C02
+case('c02-no-clear', ['C02'], ['C02.reroot'],
+     (RRT, "        self.tree.clear();\n", ""))
+case('c02-goal-on-qrand', ['C02'], ['C02.goal'],
+     (RRTC, "                if is_growing_start_tree && goal.is_satisfied(q_new) {", "                if is_growing_start_tree && goal.is_satisfied(&q_rand) {"))
+case('c02-direct-without-flag', ['C02'], ['C02.goal'],
+     (RRTC, "                if is_growing_start_tree && goal.is_satisfied(q_new) {", "                if goal.is_satisfied(q_new) {"))
+case('c02-prm-goal-unfiltered', ['C02'], ['C02.goal'],
+     (PRM, "            if goal.is_satisfied(&self.roadmap[i].state) {", "            if goal.is_satisfied(&self.roadmap[i].state) || i == 0 {"))
+case('c02-parentless', ['C02'], ['C02.parentless'],
+     (RRTS, "                parent_index: Some(best_parent_index),", "                parent_index: if min_cost.is_nan() { None } else { Some(best_parent_index) },"))
+case('c02-prm-setproblem-clears', ['C02'], ['C02.reroot'],
+     (PRM, "        self.problem_def = Some(pd);\n    }", "        self.problem_def = Some(pd);\n        self.roadmap.clear();\n    }"))
+case('c02-root-before-store', ['C02'], ['C02.reroot'],
+     (RRTS, "        self.problem_def = Some(problem_def);\n        self.validity_checker = Some(validity_checker);\n        self.tree.clear();\n\n        // Initialise the tree with the start state.\n        let start_state = self.problem_def.as_ref().unwrap().start_states[0].clone();",
+            "        let start_state = match self.problem_def.as_ref() {\n            Some(old) => old.start_states[0].clone(),\n            None => problem_def.start_states[0].clone(),\n        };\n        self.problem_def = Some(problem_def);\n        self.validity_checker = Some(validity_checker);\n        self.tree.clear();\n"))
+
+# ---------------------------------------------------------------- C18
+case('c18-one-directional', ['C18'], ['C18.sym'],
+     (PRM, "                        new_node.edges.push(i);\n                        to_update.push(i);", "                        new_node.edges.push(i);"))
+case('c18-dfs', ['C18'], ['C18.bfs'],
+     (PRM, "        while let Some(current_idx) = queue.pop_front() {", "        while let Some(current_idx) = queue.pop_back() {"))
+case('c18-mark-on-dequeue', ['C18'], ['C18.bfs'],
+     (PRM, "                    visited[neighbor_idx] = true;\n", "                    visited[current_idx] = true;\n"))
+case('c18-reconstruct-appends', ['C18'], ['C18.idempotent'],
+     (PRM, "                self.roadmap.len()\n            );\n\n            return Ok(());\n        }", "                self.roadmap.len()\n            );\n        }"))
+case('c18-drop-accepted', ['C18'], ['C18.milestone'],
+     (PRM, "            if vc.is_valid(&q_rand) {", "            if vc.is_valid(&q_rand) && self.roadmap.len() % 2 == 0 {"))
+case('c18-setproblem-drops-checker', ['C18'], ['C18.reuse'],
+     (PRM, "        self.problem_def = Some(pd);\n    }", "        self.problem_def = Some(pd);\n        self.validity_checker = None;\n    }"))
+case('c18-mirror-wrong-index', ['C18'], ['C18.sym'],
+     (PRM, "                    self.roadmap[i].edges.push(new_node_idx);", "                    self.roadmap[i].edges.push(i);"))
+case('c18-parent-not-dequeued', ['C18'], ['C18.bfs'],
+     (PRM, "                    parent_map.insert(neighbor_idx, Some(current_idx));", "                    parent_map.insert(neighbor_idx, Some(neighbor_idx));"))
+
 # ---------------------------------------------------------------- benign refactors (must stay silent)
 case('benign-range-plus-one', ['C01', 'C03'], [],
      (RRT, "            for i in 1..=num_steps {", "            for i in 1..num_steps + 1 {"))
